@@ -2,8 +2,11 @@ package props
 
 import (
 	"bytes"
+	"crypto/ed25519"
 	"fmt"
 	"io"
+	"os"
+	"path/filepath"
 	"strings"
 	"testing"
 
@@ -152,6 +155,125 @@ func c01Check(c c01Case, st *stats.Run) error {
 	return nil
 }
 
+// through the age command: encrypt with every way of naming recipients, then
+// every listed recipient's key file opens the result
+type c01CLI struct {
+	Recs     []hx.RecSpec `json:"recs"` // x25519 / ed25519 / rsa
+	Via      []string     `json:"via"`  // per recipient: "r" (-r STRING), "R" (line of a recipients file), "i" (-e -i KEYFILE)
+	PlainLen int          `json:"plainLen"`
+	Armor    bool         `json:"armor"`
+	Stdin    bool         `json:"stdin"` // plaintext on standard input, ciphertext on standard output
+}
+
+func c01KeyFile(p *hx.Pool, r hx.RecSpec) []byte {
+	switch r.Kind {
+	case "ed25519":
+		return p.EdPEM[r.Idx]
+	case "rsa":
+		return p.RSAPEM[r.Idx]
+	}
+	return []byte("# created: 2024-01-01T00:00:00Z\n# public key: " + refage.Bech32Encode("age", refage.X25519Public(p.X25519[r.Idx])) + "\n" + refage.Bech32Encode("AGE-SECRET-KEY-", p.X25519[r.Idx]) + "\n")
+}
+
+func c01RecipientString(p *hx.Pool, r hx.RecSpec) string {
+	switch r.Kind {
+	case "ed25519":
+		return refage.AuthorizedKey("ssh-ed25519", refage.SSHWireEd25519(p.Ed[r.Idx].Public().(ed25519.PublicKey))) + " user@host"
+	case "rsa":
+		return refage.AuthorizedKey("ssh-rsa", refage.SSHWireRSA(&p.RSA[r.Idx].PublicKey))
+	}
+	return refage.Bech32Encode("age", refage.X25519Public(p.X25519[r.Idx]))
+}
+
+func c01CheckCLI(c c01CLI, st *stats.Run) error {
+	bin := os.Getenv("VERIF_BIN")
+	if bin == "" {
+		return nil
+	}
+	p := hx.ThePool()
+	dir, err := os.MkdirTemp(".", "c01cli-")
+	if err != nil {
+		return pbt.Failf("C01/harness", "%v", err)
+	}
+	dir, _ = filepath.Abs(dir)
+	defer os.RemoveAll(dir)
+	plain := hx.PRG(51, c.PlainLen)
+	os.WriteFile(filepath.Join(dir, "in.dat"), plain, 0o644)
+	var args, fileLines []string
+	usesI := false
+	for i, r := range c.Recs {
+		os.WriteFile(filepath.Join(dir, fmt.Sprintf("key%d.txt", i)), c01KeyFile(p, r), 0o600)
+		switch c.Via[i%len(c.Via)] {
+		case "R":
+			fileLines = append(fileLines, c01RecipientString(p, r))
+		case "i":
+			usesI = true
+			args = append(args, "-i", fmt.Sprintf("key%d.txt", i))
+		default:
+			args = append(args, "-r", c01RecipientString(p, r))
+		}
+	}
+	if usesI {
+		args = append([]string{"-e"}, args...)
+	}
+	if len(fileLines) > 0 {
+		os.WriteFile(filepath.Join(dir, "recips.txt"), []byte("# recipients\n\n"+strings.Join(fileLines, "\n")+"\n"), 0o644)
+		args = append(args, "-R", "recips.txt")
+	}
+	if c.Armor {
+		args = append(args, "-a")
+	}
+	var stdin []byte
+	if c.Stdin {
+		stdin = plain
+	} else {
+		args = append(args, "-o", "out.age", "in.dat")
+	}
+	st.Case(len(c.Recs) >= 2 || c.PlainLen >= chunk, stats.HashJSON(c), "cli", "cli:mix="+hx.KindsOf(c.Recs), fmt.Sprintf("cli:armor=%v", c.Armor), fmt.Sprintf("cli:stdin=%v", c.Stdin), "cli:via="+strings.Join(c.Via, ""), "cli:"+chunkLabel(c.PlainLen))
+	st.Sample("cli", c)
+	env := []string{"PATH=/nonexistent", "HOME=" + dir}
+	code, stdout, stderr := runCLI(dir, env, stdin, filepath.Join(bin, "age"), args...)
+	if code == -2 {
+		return nil
+	}
+	if code != 0 {
+		return pbt.Failf("C01/encrypt-failed", "age %s: exit %d: %s", strings.Join(args, " "), code, trunc([]byte(stderr)))
+	}
+	file := []byte(stdout)
+	if !c.Stdin {
+		file, _ = os.ReadFile(filepath.Join(dir, "out.age"))
+	} else {
+		os.WriteFile(filepath.Join(dir, "out.age"), file, 0o644)
+	}
+	binFile := file
+	if c.Armor {
+		b, derr := refage.Dearmor(string(file))
+		if derr != nil || refage.Armor(b) != string(file) {
+			return pbt.Failf("C01/recipient-cannot-decrypt", "age -a wrote text that is not canonical armor: %v", derr)
+		}
+		binFile = b
+	}
+	for i, r := range c.Recs {
+		// the command itself, the library and the reference implementation all open it for recipient i
+		code, out, stderr := runCLI(dir, env, nil, filepath.Join(bin, "age"), "-d", "-i", fmt.Sprintf("key%d.txt", i), "out.age")
+		if code == -2 {
+			return nil
+		}
+		if code != 0 || out != string(plain) {
+			return pbt.Failf("C01/recipient-cannot-decrypt", "file written by age %s: age -d with the key file of recipient #%d (%s) gives exit %d, %d bytes (%s)", strings.Join(args, " "), i, r, code, len(out), trunc([]byte(stderr)))
+		}
+		got, lerr, _ := decryptLib(file, hx.Delivery{Mode: "whole"}, []int{-1}, c.Armor, p.Identity(r))
+		if lerr != nil || !bytes.Equal(got, plain) {
+			return pbt.Failf("C01/recipient-cannot-decrypt", "file written by the age command does not decrypt with the library for recipient #%d (%s): %v", i, r, lerr)
+		}
+		ref, rerr := refage.Decrypt(binFile, p.RefKey(r))
+		if rerr != nil || !bytes.Equal(ref, plain) {
+			return pbt.Failf("C01/reference-cannot-open", "file written by the age command does not open with the reference implementation for recipient #%d (%s): %v", i, r, rerr)
+		}
+	}
+	return nil
+}
+
 func firstDiff(a, b []byte) int {
 	for i := 0; i < len(a) && i < len(b); i++ {
 		if a[i] != b[i] {
@@ -291,6 +413,21 @@ func TestC01(t *testing.T) {
 		}
 		s.St.Exhaust("an unknown stanza whose first line is 1000..70000 characters long (around the 4096-byte mark) at every position among two native recipients, armor on and off", int64(n))
 	}, check)
+	pbt.Rapid(s, "roundtrip-cli", s.N(60, 400), func(t *rapid.T) c01CLI {
+		c := c01CLI{PlainLen: rapid.SampledFrom([]int{0, 1, 100, chunk - 1, chunk, chunk + 1, 2*chunk + 7}).Draw(t, "plainLen"), Armor: rapid.IntRange(0, 2).Draw(t, "armor") == 0, Stdin: rapid.IntRange(0, 3).Draw(t, "stdin") == 0}
+		for i, n := 0, rapid.IntRange(1, 4).Draw(t, "nrec"); i < n; i++ {
+			switch rapid.IntRange(0, 3).Draw(t, "kind") {
+			case 0:
+				c.Recs = append(c.Recs, hx.RecSpec{Kind: "ed25519", Idx: rapid.IntRange(0, 3).Draw(t, "ei")})
+			case 1:
+				c.Recs = append(c.Recs, hx.RecSpec{Kind: "rsa", Idx: rapid.IntRange(0, 2).Draw(t, "ri")})
+			default:
+				c.Recs = append(c.Recs, hx.RecSpec{Kind: "x25519", Idx: rapid.IntRange(0, 4).Draw(t, "xi")})
+			}
+			c.Via = append(c.Via, rapid.SampledFrom([]string{"r", "r", "R", "i"}).Draw(t, "via"))
+		}
+		return c
+	}, func(c c01CLI) error { return c01CheckCLI(c, s.St) })
 	pbt.Rapid(s, "roundtrip", s.N(1500, 8000), c01Gen, check)
 	pbt.Rapid(s, "interleaved", s.N(300, 2000), func(t *rapid.T) c01Inter {
 		n := rapid.IntRange(2, 5).Draw(t, "nfiles")
